@@ -42,6 +42,12 @@ package contextscope
 //@   ensures !result && locked(s.errorsMU) ==> !closed(s.done)
 // the accessors report the list as it is now: every error appended so far, in order, in a copy
 //@ func (*ContextScope).Err [C12]
+//@   layers contract trace lock
+//@   trace (*ContextScope).Errors as ERRS bind es
+//@   trace ToError as TOERR bind te
+//@   at_call ToError requires $0 == es
+//@   trace_ensures true : ^ERRS TOERR $
+//@   ensures result == te
 //@ func (*ContextScope).Errors [C12]
 //@   ensures len(result) == len(s.errors) && forall(k, 0 <= k && k < len(result) ==> result[k] == s.errors[k])
 //@   ensures len(result) > 0 ==> arr(result) != arr(s.errors)
@@ -64,6 +70,12 @@ package contextscope
 //@   modifies $none
 //@   ensures !result && locked(scp.errorsMU) ==> !closed(scp.done)
 //@ func (*Isolated).Err [C12]
+//@   layers contract trace lock
+//@   trace (*Isolated).Errors as ERRS bind es
+//@   trace ToError as TOERR bind te
+//@   at_call ToError requires $0 == es
+//@   trace_ensures true : ^ERRS TOERR $
+//@   ensures result == te
 //@ func (*Isolated).Errors [C12]
 //@   ensures len(result) == len(scp.errors) && forall(k, 0 <= k && k < len(result) ==> result[k] == scp.errors[k])
 //@   ensures len(result) > 0 ==> arr(result) != arr(scp.errors)
